@@ -22,6 +22,9 @@ EXTRA = [
     "start: \"match\" NAME | 'x' NEWLINE\n",
     "start: invalid_x* NAME\ninvalid_x: 'q'\n",
     "start: ','.(a | b)+ NEWLINE\na: 'a'\nb: 'b'\n",
+    # one word written with both quote styles, in either order
+    "start: 'match' NAME NEWLINE | \"match\" NUMBER NEWLINE | \"case\" 'case'\n",
+    "start: \"match\" NUMBER NEWLINE | 'match' NAME NEWLINE | 'case' \"case\"\n",
     "start: NAME &&(NUMBER*) NEWLINE\n",
     "start: &&(NAME?) NUMBER NEWLINE\n",
     "start: &&([NAME]) [(NUMBER*)] NEWLINE\n",
